@@ -11,14 +11,14 @@ lean, crates = [], []
 for c in m['checks']:
     p = json.load(open('props/%s.json' % c['property_id']))
     lean += [p['lean_props'], p['driver']]
-    crates.append(p['harness'])
+    crates.append(p.get('harness_dir', p['harness']))
 print(' '.join(dict.fromkeys(lean)))
-print(' '.join('-p ' + c for c in dict.fromkeys(crates)))
+print(' '.join(dict.fromkeys(crates)))
 PY
 LEAN_TARGETS=$(sed -n 1p /tmp/.p2verif_targets)
 CRATES=$(sed -n 2p /tmp/.p2verif_targets)
 rm -f /tmp/.p2verif_targets
 ( cd lean && lake build $LEAN_TARGETS 2>&1 | tail -3 ) || echo "setup: some Lean targets failed (their checks will report it)"
-( cd harness && cargo build $CRATES 2>&1 | tail -3 ) || echo "setup: some harness crates failed (their checks will report it)"
+for c in $CRATES; do ( cd harness/$c && { [ -f Cargo.lock ] || cp /repo/Cargo.lock Cargo.lock; } && cargo build 2>&1 | tail -2 ) || echo "setup: harness $c failed (its check will report it)"; done
 echo setup done
 exit 0
